@@ -338,7 +338,11 @@ def classify_replay(ctx, binary, cases, results, held, what):
     unrepro = None
     for r in bad[:8]:
         c = byid[r["id"]]
-        again = run_replay(ctx, binary, [c])[c["id"]]
+        again = None
+        for _try in range(30):      # what the gates do not order is up to the scheduler: a few clean re-executions
+            again = run_replay(ctx, binary, [c])[c["id"]]
+            if not again["ok"]:
+                break
         mm = r.get("mismatch") or {"kind": "stuck", "why": "the run did not terminate"}
         if again["ok"]:
             unrepro = unrepro or "replay mismatch not reproduced (%s, case [%s]): %s" % (what, short(c), mm)
